@@ -25,6 +25,7 @@ A value is a frozenset of *atoms* (a powerset domain, join = union):
   ('KEYFN', 'cmp'|'native', key)   key function and the key spec it was built from
   ('IDX', key)               list of field indices computed by asindices(hdr, key)
   ('FUNC', name)             some other callable
+  ('TRUTHY',)                some value known to be truthy (used to analyse a function under an assumption)
   ('UNDEF',)                 unbound on some path
   ('TOP',)                   unknown
 """
@@ -121,12 +122,24 @@ def is_fresh(a):
     return a[0] == 'FRESH'
 
 
-def src_of(v):
-    for a in v:
-        if a[0] in ('ARG', 'TABLE', 'DATA', 'ITER', 'HDR', 'ROW', 'GROUP'):
+def src_of(v, _depth=0):
+    for a in sorted(v, key=repr):
+        if a[0] in ('ARG', 'TABLE', 'DATA', 'ITER', 'GROUP'):
             return a[1]
+        if a[0] in ('HDR', 'ROW'):
+            # something derived from one row of the source, not from the table
+            return a[1] if a[1].startswith('row:') else 'row:' + a[1]
         if a[0] == 'SELFATTR':
             return 'self.' + a[1]
+        if a[0] == 'SELF':
+            return 'self'
+    if _depth < 2:
+        # a container of tables (e.g. the *tables tuple): name its element
+        for a in sorted(v, key=repr):
+            if a[0] == 'FRESH' and a[3]:
+                s = src_of(a[3], _depth + 1)
+                if s != '?':
+                    return s
     return '?'
 
 
@@ -147,6 +160,9 @@ def elements_of(v):
             out.add(('ROW', 'self.' + a[1]))
         elif k == 'DATA':
             out.add(('ROW', a[1]))
+        elif k == 'SELF':
+            out.add(('HDR', 'self'))
+            out.add(('ROW', 'self'))
         elif k == 'ITER':
             if a[3] is None:
                 if a[2] == 'H':
@@ -183,7 +199,7 @@ def iter_state(v):
     for a in v:
         if a[0] == 'ITER':
             states.add(a[2])
-        elif a[0] in ('ARG', 'TABLE', 'SELFATTR', 'GROUP'):
+        elif a[0] in ('ARG', 'TABLE', 'SELFATTR', 'GROUP', 'SELF'):
             states.add('H')
         elif a[0] == 'DATA':
             states.add('D')
@@ -215,12 +231,14 @@ def to_iter(v, advanced=False):
             out.add(('ITER', 'self.' + a[1], 'H', None))
         elif k == 'DATA':
             out.add(('ITER', a[1], 'D', None))
+        elif k == 'SELF':
+            out.add(('ITER', 'self', 'H', None))
         elif k == 'GROUP':
             out.add(('ITER', a[1], 'H', V(('ROW', a[1]))))
         elif k == 'FRESH':
             out.add(('ITER', 'local', 'D', a[3]))
         elif k in ('HDR', 'ROW'):
-            out.add(('ITER', a[1], 'D', VCELL))
+            out.add(('ITER', 'row:' + a[1], 'D', VCELL))
         elif k == 'UNDEF':
             continue
         else:
@@ -447,6 +465,8 @@ class FunctionAnalysis(BaseDomain):
             st[fn.vararg] = V(('ARG', fn.vararg))
         if fn.kwarg:
             st[fn.kwarg] = V(fresh('dict', 'kwargs', VTOP))
+        for k, v in (getattr(self, 'entry_overrides', None) or {}).items():
+            st[k] = v
         return st
 
     def join(self, a, b):
@@ -696,7 +716,7 @@ class FunctionAnalysis(BaseDomain):
                 if not v:
                     return None
             else:
-                v = frozenset(a for a in st[test.id] if a[0] not in ('SENT', 'FUNC', 'KEYFN'))
+                v = frozenset(a for a in st[test.id] if a[0] not in ('SENT', 'FUNC', 'KEYFN', 'TRUTHY', 'CSENT'))
                 if not v:
                     return None
             if v != st[test.id]:
